@@ -14,6 +14,8 @@ pub struct AcquisitionLot {
     pub original_amount: Decimal,
     /// Price per share
     pub price: Decimal,
+    /// Purchase consideration (quantity × price at acquisition); unaffected by later splits
+    pub consideration: Decimal,
     /// Transaction expenses
     pub expenses: Decimal,
     /// Cost adjustment from CAPRETURN/DIVIDEND events
@@ -57,6 +59,7 @@ impl AcquisitionLot {
             date,
             original_amount: amount,
             price,
+            consideration: amount * price,
             expenses,
             cost_offset,
             consumed: Decimal::ZERO,
@@ -67,7 +70,7 @@ impl AcquisitionLot {
 
     /// Calculate base cost (before adjustments).
     pub fn base_cost(&self) -> Decimal {
-        (self.original_amount * self.price) + self.expenses
+        self.consideration + self.expenses
     }
 
     /// Calculate adjusted total cost.
@@ -278,20 +281,30 @@ impl AcquisitionLedger {
         }
     }
 
-    /// Rescale all lots after a share split (factor > 1) or consolidation (factor < 1).
+    /// Rescale all lots after a share split (`consolidation == false`: counts multiplied by
+    /// `ratio`) or a consolidation (`consolidation == true`: counts divided by `ratio`).
     ///
-    /// Share counts are multiplied by `factor` and the unit price divided by it, so each
-    /// lot's total cost is unchanged.
-    pub fn rescale(&mut self, factor: Decimal) {
-        if factor == Decimal::ZERO {
+    /// The unit price moves the other way; a lot's total cost is its recorded consideration and
+    /// does not change. A consolidation divides rather than multiplying by the reciprocal: 1/3
+    /// has no exact decimal, and SPLIT 3 followed by UNSPLIT 3 must give back the same counts.
+    pub fn rescale(&mut self, ratio: Decimal, consolidation: bool) {
+        if ratio == Decimal::ZERO {
             return;
         }
         for lot in &mut self.lots {
-            lot.original_amount *= factor;
-            lot.consumed *= factor;
-            lot.reserved *= factor;
-            lot.in_pool *= factor;
-            lot.price /= factor;
+            if consolidation {
+                lot.original_amount /= ratio;
+                lot.consumed /= ratio;
+                lot.reserved /= ratio;
+                lot.in_pool /= ratio;
+                lot.price *= ratio;
+            } else {
+                lot.original_amount *= ratio;
+                lot.consumed *= ratio;
+                lot.reserved *= ratio;
+                lot.in_pool *= ratio;
+                lot.price /= ratio;
+            }
         }
     }
 
